@@ -47,6 +47,11 @@ CHECKS = {
         "note": "Trusted: TLC, reference-run oracle for content (tolerance 1e-9), failure injection by exceptions from the user's Hamiltonian / field equation. Known findings (MeanFieldTempo field-stage failure, PtTebd restart at a pre-control step) are matched only on histories where the deviated spec predicts a non-canonical state.",
         "technique": "TLA+ spec + TLC exhaustive over call histories and fault points; spec->code replay with per-action comparison; deviations as named spec constants",
     },
+    "C03": {
+        "text": "PTContract.tla is the exact reference semantics of system + ancilla environments (monomial joint dynamics tracked term by term in integer arithmetic) stepped like compute_dynamics; TLC checks injectivity/hermiticity/diagonal invariants and enumerates gate plans x control schedules x 0..3 environments, emitting the exact reduced state after every step; real SimpleProcessTensors (rank 3/4, unitary and non-unitary transforms, caps computed or by hand), Systems and Controls are built from the same gate alphabet and compute_dynamics is compared entry by entry; list permutations are asserted only for system-diagonal environments; additivity of spectral densities is bound with the probe bath.",
+        "note": "Trusted: TLC, the MPO-tensor construction from a joint unitary (harness, validated against the unchanged tree), numpy. Environments are monomial unitaries (no superposition-creating gates); exhaustive for <=2 environments x 2 steps, sampled (TLC -simulate) beyond.",
+        "technique": "TLA+ reference semantics + TLC enumeration / simulation; spec->code replay with hand-built process tensors",
+    },
 }
 for e in ENGINES:
     e["serves_properties"] = sorted(CHECKS)
